@@ -8,29 +8,8 @@
 //      papply <class 0 amg|1 relaxation|2 dummy> <coarsening> <relaxation> <coarse_enough> <max_levels> <direct_coarse> A f
 //             (preconditioner.apply(rhs, x) with the OUTPUT vector x allocated uninitialised, i.e. holding the fill pattern)
 // The values are small dyadic rationals, converted to double exactly.  Implementation-only harness (no model line).
+#include "poison.hpp"      // replaced operator new (fill patterns) + allocation-site tracker; must come first
 #include "gen.hpp"
-#include <new>
-#include <cstdlib>
-#include <cstring>
-
-// ---------------------------------------------------------------- allocation poisoning
-namespace poison {
-    static int mode = -1;                 // -1 = off, 0: 0x00, 1: 0xFF, 2: 0xAA, 3: PRNG bytes
-    static uint64_t state = 88172645463325252ULL;
-    static inline void fill(void *p, std::size_t n) {
-        if (mode < 0) return;
-        if (mode == 0) std::memset(p, 0x00, n);
-        else if (mode == 1) std::memset(p, 0xFF, n);
-        else if (mode == 2) std::memset(p, 0xAA, n);
-        else { unsigned char *c = (unsigned char*)p; for (std::size_t i = 0; i < n; ++i) { state ^= state << 13; state ^= state >> 7; state ^= state << 17; c[i] = (unsigned char)(state >> 32); } }
-    }
-}
-void* operator new(std::size_t n) { void *p = std::malloc(n ? n : 1); if (!p) throw std::bad_alloc(); poison::fill(p, n); return p; }
-void* operator new[](std::size_t n) { void *p = std::malloc(n ? n : 1); if (!p) throw std::bad_alloc(); poison::fill(p, n); return p; }
-void operator delete(void *p) noexcept { std::free(p); }
-void operator delete[](void *p) noexcept { std::free(p); }
-void operator delete(void *p, std::size_t) noexcept { std::free(p); }
-void operator delete[](void *p, std::size_t) noexcept { std::free(p); }
 
 #include <amgcl/amg.hpp>
 #include <amgcl/make_solver.hpp>
@@ -71,15 +50,16 @@ static Out run_once(const Case &k, int fill_mode) {
     prm.put("precond.coarse_enough", k.ce); prm.put("precond.max_levels", k.ml); prm.put("precond.direct_coarse", k.dc != 0);
     prm.put("precond.npre", k.npre); prm.put("precond.npost", k.npost); prm.put("precond.ncycle", k.ncycle);
     if (std::string(solvers[k.s]) != "preonly") prm.put("solver.maxiter", k.maxiter);
-    poison::mode = fill_mode;
+    vh_poison::mode = fill_mode; vh_poison::track = (fill_mode == 1);
+    struct Off { ~Off() { vh_poison::mode = -1; vh_poison::track = false; } } off_guard;
     try {
         Solver solve(std::tie(k.A.n, ptr, col, val), prm);
         std::vector<double> x(k.A.n, 0.0);
         size_t it; double res; std::tie(it, res) = solve(rhs, x);
-        poison::mode = -1;
+        vh_poison::mode = -1;
         o.tag = "ok"; o.iters = it; o.resid = res; o.x = x;
-    } catch (const amgcl::error::empty_level&) { poison::mode = -1; o.tag = "empty_level"; }
-    catch (const std::exception &e) { poison::mode = -1; o.tag = "exception"; }
+    } catch (const amgcl::error::empty_level&) { vh_poison::mode = -1; o.tag = "empty_level"; }
+    catch (const std::exception &e) { vh_poison::mode = -1; o.tag = "exception"; }
     return o;
 }
 
@@ -96,16 +76,17 @@ static Out papply_once(const PCase &k, int fill_mode) {
     prm.put("class", pclasses[k.cls]);
     if (k.cls == 0) { prm.put("coarsening.type", coarsenings[k.c]); prm.put("relax.type", relaxations[k.r]); prm.put("coarse_enough", k.ce); prm.put("max_levels", k.ml); prm.put("direct_coarse", k.dc != 0); }
     else if (k.cls == 1) prm.put("type", relaxations[k.r]);
-    poison::mode = fill_mode;
+    vh_poison::mode = fill_mode; vh_poison::track = (fill_mode == 1);
+    struct Off { ~Off() { vh_poison::mode = -1; vh_poison::track = false; } } off_guard;
     try {
         RPrecond P(std::tie(k.A.n, ptr, col, val), prm);
         double *xraw = new double[k.A.n ? k.A.n : 1];            // output vector: never initialised by the caller
         auto X = amgcl::make_iterator_range(xraw, xraw + k.A.n);
         P.apply(rhs, X);
-        poison::mode = -1;
+        vh_poison::mode = -1;
         o.tag = "ok"; o.x.assign(xraw, xraw + k.A.n); delete[] xraw;
-    } catch (const amgcl::error::empty_level&) { poison::mode = -1; o.tag = "empty_level"; }
-    catch (const std::exception &e) { poison::mode = -1; o.tag = "exception"; }
+    } catch (const amgcl::error::empty_level&) { vh_poison::mode = -1; o.tag = "empty_level"; }
+    catch (const std::exception &e) { vh_poison::mode = -1; o.tag = "exception"; }
     return o;
 }
 
@@ -117,6 +98,7 @@ static Result execute_papply(const Toks &t) {
     for (int m = 1; m <= 3; ++m) { Out o = papply_once(k, m); if (!same(base, o)) { r.fail(std::string("preconditioner apply() depends on the previous contents of its output vector / the heap: fill 0x00 vs ") + (m == 1 ? "0xFF" : m == 2 ? "0xAA" : "random") + " (" + pclasses[k.cls] + "/" + coarsenings[k.c] + "/" + relaxations[k.r] + ")"); break; } }
     Line l; l << base.tag; for (double d : base.x) l << hex(d);
     r.out = l.get(); r.nontrivial = base.tag == "ok" && k.A.n > 1; r.tag("papply").tag(pclasses[k.cls]).tag(relaxations[k.r]).tag(base.tag);
+    for (auto &key : vh_poison::sites_since_mark()) r.tag("site:" + key);
     return r;
 }
 
@@ -143,6 +125,7 @@ static Result execute(const Toks &t) {
     r.out = l.get();
     r.nontrivial = base.tag == "ok" && k.A.n > 1;
     r.tag(coarsenings[k.c]).tag(relaxations[k.r]).tag(solvers[k.s]).tag(base.tag);
+    for (auto &key : vh_poison::sites_since_mark()) r.tag("site:" + key);
     return r;
 }
 
